@@ -46,7 +46,7 @@ def dmd_case(draw):
     case = {'dims': dims, 'm': m, 'r': r, 'rep': rep, 'flags': flags, 'threshold': draw(st.sampled_from([0, 0, 1e-9])),
             'variant': draw(st.sampled_from(['exact', 'standard'])), 'seed': draw(gen.SEED),
             'scale_exp': draw(st.sampled_from([0, 0, -3, -12, 6])), 'ykind': draw(st.sampled_from(['linear', 'linear', 'perturbed_lowrank'])),
-            'update_in_place': draw(st.sampled_from([False, True]))}
+            'update_in_place': draw(st.sampled_from([False, True])), 'small_eig': draw(st.sampled_from([False, False, True]))}
     if rep in ('ttsvd', 'orthonormal') and draw(st.booleans()):
         # a cut that really cuts: prescribed singular values of X, `r` of them in [0.1, 1] and `small` of them around 1e-5,
         # with the threshold 1e-3 in the gap (only on representations whose orthonormalisation sweeps see singular values
@@ -115,6 +115,14 @@ def body(c):
         Y = scale * (Y0 + 1e-5 * rng.standard_normal((N, m)))
     else:
         A = rng.standard_normal((N, N))
+        if c.get('small_eig') and r == N:
+            # a fast-decaying direction: one DMD eigenvalue 3e-4 times the largest (X spans the whole space, so the reduced matrix
+            # is similar to A).  The threshold is a cut on the singular values of X, not on the spectrum of the dynamics.
+            lamA = np.linspace(0.5, 1.5, N) * np.where(rng.random(N) < 0.5, -1.0, 1.0)
+            lamA[0] = 3e-4 * 1.5
+            Q = np.eye(N) + 0.3 * rng.standard_normal((N, N))
+            if np.linalg.cond(Q) < 30:
+                A = (Q * lamA) @ np.linalg.inv(Q)
         Y = A @ X
     # matrix DMD (with the same relative cut)
     U, s, Vh = np.linalg.svd(X, full_matrices=False)
@@ -124,7 +132,7 @@ def body(c):
     Ared = U.T @ Y @ Vh.T / s
     lam = np.linalg.eigvals(Ared)
     lmax = np.max(np.abs(lam))
-    assume(lmax > 0 and np.min(np.abs(lam)) > 1e-3 * lmax)
+    assume(lmax > 0 and np.min(np.abs(lam)) > (1e-5 if c.get('small_eig') else 1e-3) * lmax)
     gaps = [abs(lam[i] - lam[j]) for i in range(r) for j in range(i + 1, r)]
     assume(not gaps or min(gaps) > 1e-3 * lmax)
     x = to_tt(rng, X, dims, m, c['rep'], c['flags'])
@@ -189,6 +197,8 @@ def body(c):
         lab.add('cut_active' if small else 'threshold_1e-3')
     if c.get('ykind') == 'perturbed_lowrank':
         lab.add('y_perturbed_lowrank')
+    if np.min(np.abs(lam)) < 1e-3 * lmax:
+        lab.add('eigenvalue_below_1e-3_of_largest')
     if 1 in dims:
         lab.add('size1mode')
     if c.get('scale_exp', 0) != 0:
